@@ -43,6 +43,13 @@ def cases(draw, tier):
     k = draw(st.integers(2, nm))
     comps = draw(st.permutations(names))[:k]
     cfg["IDX"] = {"class": "IndexMarket", "tickSize": draw(st.sampled_from([1.0, 0.01])), "marketPrice": draw(st.sampled_from([100.0, 300.0])), "markets": list(comps)}
+    if draw(st.integers(0, 3)) == 0:
+        # a component of a user-defined market class that publishes its own price / fundamental numbers: the index averages what its
+        # components report
+        cfg[draw(st.sampled_from(comps))]["class"] = "VQuotedMarket"
+    if draw(st.integers(0, 3)) == 0:
+        # the obsolete 'requires' key (accepted with a warning): it does not add components
+        cfg["IDX"]["requires"] = draw(st.lists(st.sampled_from(names), min_size=1, max_size=nm, unique=True))
     extra = draw(st.sampled_from(["none", "none", "none", "own_keys", "extends"]))
     if extra == "own_keys":
         # settings of a spot market's fundamental process on the index entry: an index has no process of its own
